@@ -1,8 +1,9 @@
 (** C05 — JWT authentication accepts exactly the correctly signed, asserted tokens.
     Property theorems only; proofs are in C05/Proofs.v, the specification
     vocabulary ([spec_accepts], [trusted_issuers], [allowed_algs], [expected_audiences],
-    [required_scopes], [leeway], [guard_F1] ... [guard_F5], [open_guards] (= F3 or F5), [scopes_satisfied], [sane_clock]) in C05/Spec.v, [demands]
-    and [window_ok] in C05/Proofs.v.
+    [required_scopes], [leeway], [scopes_satisfied], [sane_clock], [guard_F1], [guard_F2], [guard_F3], [guard_F5],
+    [open_guards] (= [guard_F3], the only open finding)) in C05/Spec.v, [guard_F4], [guard_F6] in
+    C05/CacheProofs.v, [demands] and [window_ok] in C05/Proofs.v.
 
     [authenticate cf ks now cred] is jwtAuthenticator.Execute on a request whose
     configured sources yield [cred], for the mechanism + rule-level configuration
@@ -10,7 +11,8 @@
     [sig_ok t k] (does the signature of [t] verify with the material of [k]) and
     certificate validity are oracles: cryptography is not modelled.
     [authenticate] is the code as it is now, i.e. with the fix: commits a3a89b7
-    (C05-F1) and f16c3cc (C05-F2); [authenticate_pinned] is the code before them. *)
+    (C05-F1), f16c3cc (C05-F2) and d55629a (C05-F5); [authenticate_pinned] is the code as it is with
+    a3a89b7 and f16c3cc reverted (the later repair d55629a kept; not a state /repo was ever in). *)
 From HV Require Import Base.Prelude Base.Time C05.Model C05.Spec C05.Proofs C05.ScopeProofs C05.Cache C05.CacheProofs.
 
 (** A subject is created only if: a key [k] published by the key-set endpoint
@@ -81,7 +83,7 @@ Example C05_F5_fixed :
 Proof. exact F5_fixed. Qed.
 Print Assumptions C05_F5_fixed.
 
-(** the code before a3a89b7 / f16c3cc met the specification outside C05-F1 (`exp <= 0` never expires)
+(** the code as it is with a3a89b7 / f16c3cc reverted (later repairs kept) meets the specification outside C05-F1 (`exp <= 0` never expires)
     and C05-F2 (`nbf`/`iat` beyond int64 count as not set) ... *)
 Theorem C05_pinned_iff_spec : forall cf ks now cr,
   sane_clock cf now -> guard_F1 cr = false -> guard_F2 cr = false ->
@@ -237,9 +239,10 @@ Theorem C05_cache_history_spec : forall h pre s post r,
 Proof. exact history_spec_fixed. Qed.
 Print Assumptions C05_cache_history_spec.
 
-(** C05-F6 as it was before 4a30678 (a template in a HEADER value of the jwks endpoint did not reach the cache
-    key: endpoint hash over the unrendered templates + rendered url + kid + ttl): the statement held for
-    histories without a header-only template ([url_keyed]) or outside the guard ... *)
+(** C05-F6, i.e. the code as it is with 4a30678 reverted (a template in a HEADER value of the jwks endpoint does
+    not reach the cache key: endpoint hash over the unrendered templates + rendered url + kid + ttl): the
+    statement holds for histories without a header-only template ([url_keyed]; this branch is the content) or
+    outside the guard (true by definition: [guard_F6] = "the reverted and the repaired run differ") ... *)
 Theorem C05_cache_pinned_F6_history_stateless : forall f1 f2 h pre s post r,
   url_keyed h \/ guard_F6 f1 f2 h = false ->
   h = pre ++ s :: post ->
@@ -248,31 +251,33 @@ Theorem C05_cache_pinned_F6_history_stateless : forall f1 f2 h pre s post r,
 Proof. exact history_stateless. Qed.
 Print Assumptions C05_cache_pinned_F6_history_stateless.
 
-(** ... and failed inside (pinned witness about the old keying): two issuers behind one url whose key sets share a
+(** ... and fails inside (pinned witness about the old keying): two issuers behind one url whose key sets share a
     kid shared the cache entry — after tenant-a's key had been cached a token naming tenant-b but signed with
     tenant-a's key was accepted although the specification rejects it in every world, and tenant-b's own token
     was refused; the code as it is judges both correctly *)
-Theorem C05_F6_refuted :
+Theorem C05_F6_pinned_refuted :
   let h := [exc_hdr (exc_tok "tenant-a" "k1" 3); exc_hdr (exc_tok "tenant-b" "k1" 3); exc_hdr (exc_tok "tenant-b" "k1" 4)] in
   guard_F6 true true h = true /\
   run_history true true true false h = [Accepted "alice"; Accepted "alice"; Failed ESignature] /\
   run_history true true true true h = [Accepted "alice"; Failed ESignature; Accepted "alice"] /\
   ~ meets_spec [exc_hdr (exc_tok "tenant-a" "k1" 3)] (exc_hdr (exc_tok "tenant-b" "k1" 3)) (Accepted "alice").
-Proof. exact F6_refuted. Qed.
-Print Assumptions C05_F6_refuted.
+Proof. exact F6_pinned_refuted. Qed.
+Print Assumptions C05_F6_pinned_refuted.
 
-(** C05-F4 as it was before d20d7cd (the cached key was not re-validated, and the cache key covers neither
-    validate_jwk nor the trust store): the statement held for histories validating alike or outside the guard ... *)
-Theorem C05_cache_pinned_history_stateless : forall f1 f2 h pre s post r,
+(** C05-F4, i.e. the code as it is with d20d7cd and 4a30678 reverted, later repairs kept (the cached key is not
+    re-validated, and the cache key covers neither validate_jwk nor the trust store): the statement holds for
+    [url_keyed] histories validating alike ([uniform_validation]; this branch is the content) or outside the
+    guard (true by definition: [guard_F4] = "the run with and without d20d7cd differ") ... *)
+Theorem C05_cache_pinned_F4_history_stateless : forall f1 f2 h pre s post r,
   (exists v, uniform_validation v h) \/ guard_F4 f1 f2 h = false ->
   url_keyed h ->
   h = pre ++ s :: post ->
   nth_error (run_history f1 f2 false false h) (length pre) = Some r ->
   judged_statelessly f1 f2 pre s r.
 Proof. exact history_stateless_either. Qed.
-Print Assumptions C05_cache_pinned_history_stateless.
+Print Assumptions C05_cache_pinned_F4_history_stateless.
 
-(** ... and failed inside: a strict authenticator accepted through a key that a lax one had cached, although
+(** ... and fails inside: a strict authenticator accepts through a key that a lax one had cached, although
     the specification rejects the token in every world of the history; the code as it is refuses it *)
 Theorem C05_F4_pinned_refuted :
   let h := [exc_who true; exc_who false; exc_who true] in
@@ -280,7 +285,7 @@ Theorem C05_F4_pinned_refuted :
   run_history true true false false h = [Failed EKey; Accepted "alice"; Accepted "alice"] /\
   run_history true true true false h = [Failed EKey; Accepted "alice"; Failed EKey] /\
   ~ meets_spec [exc_who true; exc_who false] (exc_who true) (Accepted "alice").
-Proof. exact F4_refuted. Qed.
+Proof. exact F4_pinned_refuted. Qed.
 Print Assumptions C05_F4_pinned_refuted.
 
 (** while the published key sets do not change the cache is invisible *)
